@@ -506,5 +506,46 @@ class ConverterHistorySystem(System):
         return Obs(digest=(opt, ka, kb, repr(after)), nontrivial=diff > 0, violations=viol, transitions=2 * len(HIST_VALUES), validated=len(HIST_VALUES))
 
 
+class TestDirectiveSystem(System):
+    """docutils' test directive accepts every option: its split (arguments, body, offset) obeys the same rule as any other class"""
+
+    name = "test-directive"
+
+    def __init__(self, tier):
+        super().__init__(tier)
+        self.k = 3 if tier == "quick" else 4
+        self.description = f"restructuredtext-test-directive x first line in {FIRST} x every content of <= {self.k} lines over the vocabulary: arguments, body lines and body offset against the model"
+
+    def bounds(self):
+        return {"lines": self.k}
+
+    def rule(self):
+        return "one case = (first line, content); non-trivial = an option block and a body"
+
+    def cases(self):
+        voc = [v for v in VOC if "@1" not in v]
+        for fi in range(len(FIRST)):
+            for n in range(self.k + 1):
+                for ls in itertools.product(voc, repeat=n):
+                    yield [fi, "\n".join(ls)]
+
+    def run(self, case):
+        fi, content = case
+        first = FIRST[fi]
+        m = model(TestDirective, first, content, None)
+        viol = []
+        try:
+            r = parse_directive_text(TestDirective, first, content, line=0)
+        except MarkupError:
+            return Obs(digest="markup-error", nontrivial=False)
+        if m["args"] != "ERR":
+            if strip_trailing(r.body) != m["body"]:
+                viol.append(violation("body", {"clause": "body", "cls": "test-directive"}, f"first={first!r} content={content!r}: body {r.body}, expected {m['body']}", content=content))
+            elif m["body"] and m["offset"] is not None and r.body_offset != m["offset"]:
+                viol.append(violation("offset", {"clause": "offset", "cls": "test-directive", "delta": r.body_offset - m["offset"]},
+                                      f"first={first!r} content={content!r}: body_offset {r.body_offset}, expected {m['offset']}", content=content))
+        return Obs(digest=(tuple(r.body), r.body_offset), nontrivial=bool(m.get("has_block") and m.get("body")), violations=viol)
+
+
 def systems(tier):
-    return [SplitSystem(tier), MetaSystem(tier), ConverterHistorySystem(tier)]
+    return [SplitSystem(tier), TestDirectiveSystem(tier), MetaSystem(tier), ConverterHistorySystem(tier)]
